@@ -328,6 +328,22 @@ func (fr *Frame) loopEnv(li *loopInfo, phiVal func(*ssa.Phi) Val) map[string]Val
 			idx = phi
 		}
 	}
+	if idx != nil && idx.Comment == "rangeindex" {
+		// $range: the slice being ranged over (the operand indexed by the range index in the loop body)
+		for b := range li.body {
+			for _, ins := range b.Instrs {
+				ia, ok := ins.(*ssa.IndexAddr)
+				if !ok {
+					continue
+				}
+				if bo, ok := ia.Index.(*ssa.BinOp); ok && bo.X == ssa.Value(idx) {
+					if v, ok := fr.vals[ia.X]; ok {
+						vars["$range"] = v
+					}
+				}
+			}
+		}
+	}
 	if idx != nil {
 		v := phiVal(idx)
 		if idx.Comment == "rangeindex" {
